@@ -177,7 +177,7 @@ def report(prop, args, seed, meta, results, static_results, bounded_results, wal
     for s in static_results:
         if s["ok"]:
             by_strength[s.get("strength", "U")] += 1
-    solver_time = sum(o["time_s"] for o in obligations)
+    solver_time = sum(o["time_s"] for o in obligations) + sum(s.get("time_s", 0.0) for s in static_results)
     max_q = max([o["time_s"] for o in obligations], default=0.0)
     violations_out = []
     known_lines = []
